@@ -169,17 +169,20 @@ def _run_bad(ctx, b, q):
     ctx.extra['exhaustive_delivery_orders'] = len(allb)
     kinds = ['subst', 'sig', 'dupdrop', 'reorder', 'payload']
     bk = ['state', 'txroot', 'time', 'drop', 'add', 'duptail']
-    step = 3 if q else 1
-    parts = {}
-    for i, x in enumerate(allb):
-        parts.setdefault(i % len(kinds), []).append(x)
-    for k, part in sorted(parts.items()):
-        sel = part[::step]
-        ctx.replay(b, sel, opts=dict(via='process', tkind=kinds[k], bkind=bk[k % len(bk)], clause='ab', salt=k), par=8, timeout=7200)
+    if q:
+        pool = allb[::3]
+    else:
+        # all orders of the 3-block trees, every 2nd order of T5, every 4th of T6 (8 pid combinations each)
+        pool = [x for i, x in enumerate(allb) if x['steps'][0]['n'] == 3
+                or (x['steps'][0]['n'] == 4 and x['steps'][0]['kind'][1] == 'ok' and i % 2 == 0) or i % 4 == 0]
+    ctx.extra['replayed_delivery_orders'] = len(pool)
+    for k in range(len(kinds)):
+        sel = pool[k::len(kinds)]
+        if sel:
+            ctx.replay(b, sel, opts=dict(via='process', tkind=kinds[k], bkind=bk[k % len(bk)], clause='ab', salt=k), par=8, timeout=10800)
     # clause c (a rejected body is still served) is masked by clause b in complete orders: evaluate it alone on a subset
-    sub = allb[::(9 if q else 3)]
-    ctx.replay(b, sub, opts=dict(via='process', clause='c', salt=7), par=8, timeout=7200, count=False)
-    ctx.replay(b, allb[1::(17 if q else 5)], opts=dict(via='bus', clause='ab', salt=8, bkind=bk[5]), par=8, timeout=7200, count=False)
+    ctx.replay(b, pool[::3], opts=dict(via='process', clause='c', salt=7), par=8, timeout=10800, count=False)
+    ctx.replay(b, pool[1::5], opts=dict(via='bus', clause='ab', salt=8, bkind=bk[5]), par=8, timeout=10800, count=False)
     _validate(ctx, b, d, dict(n=4 if q else 24, size=7 if q else 10, bad=1))
 
 
